@@ -293,6 +293,7 @@ def judge(data: bytes, obs: dict, pred: Pred | None, backend: str, place: str):
     pred is the model's prediction for the STORED string obs['raw'] when that
     differs from data and is known to the model, else for data."""
     fails, drift = [], []
+    unjudged = False
     s = obs['raw']
     # the string the model's spans refer to: the appended one, or - when the
     # maildir store rewrote it (known findings) - the stored one
@@ -311,11 +312,16 @@ def judge(data: bytes, obs: dict, pred: Pred | None, backend: str, place: str):
         fails.append(('stored', sig, {'got': s[:200], 'len_got': len(s)}))
         if backend == 'maildir':
             base, p = s, obs.get('pred_for_stored')
+            if p is None:
+                # the store rewrote the message into a string the model has no
+                # prediction for: only the clauses that no known deviation of
+                # the MIME index can break are judged against the stored bytes
+                unjudged = True
     if 'rfc822' in obs and obs['rfc822'] != s:
         fails.append(('rfc822-vs-body[]', None, {'rfc822': (obs['rfc822'] or b'')[:200]}))
     if obs['size'] != len(s):
         fails.append(('size', None, {'size': obs['size'], 'len': len(s)}))
-    if obs['hdr'] + obs['txt'] != s:
+    if obs['hdr'] + obs['txt'] != s and not unjudged:
         sig = None
         if p is not None and p.devs & {'WhitespaceOnlyTail', 'NoSeparatorHeader'} \
                 and obs['hdr'] == base[p.hdr[0]:p.hdr[1]] \
@@ -331,7 +337,8 @@ def judge(data: bytes, obs: dict, pred: Pred | None, backend: str, place: str):
     for path, size, body, mime in obs['leaves']:
         if body is None:
             continue
-        if size != len(body):
+        if size != len(body) and not (unjudged and not (
+                mime and size == len(mime) + len(body))):
             sig = None
             m = pl.get(path)
             if m is not None:
@@ -486,6 +493,9 @@ def e2e_batch(backend: str, msgs: list, stats: dict, *, partial_places=('inbox',
             r = _append(w, data, mode)
             if wc.tagged([ln for ln in r.split(b'\r\n') if ln]) == b'OK' and b'APPENDUID' in r:
                 accepted.append((ident, data))
+            elif len(msgs) > 1 and (w.conns['a'].done or not r):
+                # the connection died on this APPEND: isolate the messages
+                raise wc.BadResponse(f'connection lost on APPEND: {r[:120]!r}')
             else:
                 out.append((ident, 'inbox', ('refused', r[:200])))
         if not accepted:
@@ -652,11 +662,11 @@ def main(tier: str) -> int:
     ]
     if tier == 'quick':
         byte_ideal, byte_asis_len = ('WireMime_ideal.cfg', 6), 5
-        line_cfgs = [('WireMimeLines_free_asis.cfg', 'WireMimeLines_free_ideal.cfg'),
+        line_cfgs = [('WireMimeLines_free_asis.cfg', None),
                      ('WireMimeLines_nest_asis.cfg', 'WireMimeLines_nest_ideal.cfg')]
         e2e_byte_len = {'dict': 4, 'maildir': 3}
-        e2e_line_max = {'dict': 3, 'maildir': 2}
-        e2e_sample = {'dict': 1500, 'maildir': 250}
+        e2e_line_max = {'dict': 2, 'maildir': 1}
+        e2e_sample = {'dict': 700, 'maildir': 160}
         long_n = 0
     else:
         byte_ideal, byte_asis_len = ('WireMime_ideal7.cfg', 7), 6
@@ -668,42 +678,49 @@ def main(tier: str) -> int:
         long_n = 60
 
     # ---- 1. TLC -----------------------------------------------------------
+    import shutil
+    import tempfile
+    tmp = tempfile.mkdtemp(prefix='verif.c03.')
+    fixed = set(run.known.fixed)
+    run.notes['deviations_modelled_as_repaired'] = sorted(fixed)
     try:
-        res = tlc.run_tlc('WireMime.tla', byte_ideal[0], workers=16, deadlock=False)
-        run.add_model(res, byte_ideal[0])
-        if not res.ok:
-            run.machinery(f'{byte_ideal[0]}: {res.violated or res.error}')
-            return run.finish()
-        res = tlc.run_tlc('WireMime.tla', 'WireMime_law.cfg', workers=4, deadlock=False)
-        run.notes['law_on_asis_model'] = {
-            'violated': res.violated,
-            'counterexample': [list(st.get('s', ())) for _l, st in res.trace][-1:]}
-        if 'Fidelity' not in res.violated:
-            run.drift.append({'what': 'the as-is model no longer violates Fidelity; '
-                              'known findings WhitespaceOnlyTail/NoSeparatorHeader '
-                              'may be obsolete'})
         cfg = 'WireMime_asis.cfg' if byte_asis_len == 5 else 'WireMime_asis6.cfg'
-        bstates, res = wc.dump_states('WireMime.tla', cfg, workers=16)
-        run.add_model(res, cfg)
-        if not res.ok:
-            run.machinery(f'{cfg}: {res.violated or res.error}')
+        jobs = {
+            'byte_ideal': lambda: tlc.run_tlc('WireMime.tla', byte_ideal[0], workers=8,
+                                              deadlock=False),
+            'byte_law': lambda: tlc.run_tlc('WireMime.tla', 'WireMime_law.cfg', workers=2,
+                                            deadlock=False),
+            'byte_asis': lambda: wc.dump_states(
+                'WireMime.tla', wc.cfg_with_fixed(cfg, fixed, tmp), workers=6),
+        }
+        for i, (asis, ideal) in enumerate(line_cfgs):
+            if ideal:
+                jobs[f'line_ideal{i}'] = (lambda ideal=ideal: tlc.run_tlc(
+                    'WireMimeLines.tla', ideal, workers=4, deadlock=False))
+            jobs[f'line_asis{i}'] = (lambda asis=asis: wc.dump_states(
+                'WireMimeLines.tla', wc.cfg_with_fixed(asis, fixed, tmp), workers=4))
+        got = wc.run_parallel(jobs, threads=8)
+    finally:
+        shutil.rmtree(tmp, ignore_errors=True)
+    for name, r in got.items():
+        if isinstance(r, Exception):
+            run.machinery(f'TLC job {name}: {r}')
             return run.finish()
-        lstates = []
-        for asis, ideal in line_cfgs:
-            res = tlc.run_tlc('WireMimeLines.tla', ideal, workers=16, deadlock=False)
-            run.add_model(res, ideal)
-            if not res.ok:
-                run.machinery(f'{ideal}: {res.violated or res.error}')
-                return run.finish()
-            sts, res = wc.dump_states('WireMimeLines.tla', asis, workers=16)
-            run.add_model(res, asis)
-            if not res.ok:
-                run.machinery(f'{asis}: {res.violated or res.error}')
-                return run.finish()
-            lstates += sts
-    except tlc.TLCError as exc:
-        run.machinery(str(exc))
-        return run.finish()
+        res = r[1] if isinstance(r, tuple) else r
+        if name == 'byte_law':
+            continue
+        run.add_model(res, name)
+        if not res.ok:
+            run.machinery(f'{name}: {res.violated or res.error}')
+            return run.finish()
+    res = got['byte_law']
+    run.notes['law_on_model_of_pinned_tree'] = {
+        'violated': res.violated,
+        'counterexample': [list(st.get('s', ())) for _l, st in res.trace][-1:]}
+    bstates = got['byte_asis'][0]
+    lstates = []
+    for i in range(len(line_cfgs)):
+        lstates += got[f'line_asis{i}'][0]
     run.notes['tlc_wall_s'] = timer.lap()
 
     for st in bstates:
@@ -790,9 +807,14 @@ def main(tier: str) -> int:
         for kind, key, data, mode, backend, place, fails, drift in res:
             if isinstance(fails, tuple):
                 if fails[0] == 'refused':
+                    # outside the antecedent of C03 (APPEND did not accept b);
+                    # an internal error on APPEND is recorded for the report
                     refused += 1
-                    run.drift.append({'what': 'APPEND refused a non-empty message',
-                                      'b': _hexs(data[:64]), 'response': fails[1]})
+                    key_ = 'append_server_error' if b'SERVERBUG' in fails[1] else 'append_refused'
+                    lst = run.notes.setdefault(key_, [])
+                    if len(lst) < 5:
+                        lst.append({'backend': backend, 'b': repr(data[:120]),
+                                    'response': repr(fails[1])})
                 continue
             if place == 'inbox':
                 ne2e[backend] += 1
